@@ -48,6 +48,18 @@ def to_sym_world(v):
     return v
 
 
+def desc_to_sym(d):
+    """A JSON descriptor (as printed by the runner) -> contract-world value: pamqp objects become SObj."""
+    if isinstance(d, dict) and '__obj__' in d:
+        cls = values.resolve_class(d['__obj__'])
+        return SObj(cls, {k: desc_to_sym(x) for k, x in d.get('attrs', {}).items()}, provenance='fresh')
+    if isinstance(d, dict) and '__tuple__' in d:
+        return tuple(desc_to_sym(x) for x in d['__tuple__'])
+    if isinstance(d, list):
+        return [desc_to_sym(x) for x in d]
+    return values.decode(d)
+
+
 def expected_outcome(contract, args, reads=None):
     """Evaluate the contract on concrete arguments.
     -> ('return', value) | ('raise', cls) | ('post', callable) | ('none', None)"""
@@ -67,8 +79,8 @@ def expected_outcome(contract, args, reads=None):
                 return ('raise', case.raises), ctx
             if case.returns is not None:
                 return ('return', case.returns(ctx)), ctx
-            if case.post is not None:
-                return ('post', case.post), ctx
+            if case.post is not None or case.may_raise:
+                return ('post', case), ctx
             return ('return', None), ctx
     return ('none', None), ctx
 
@@ -105,15 +117,18 @@ def agrees(contract, exp, ctx, observed):
     if kind == 'raise':
         return observed['outcome'] == 'raise' and exc_matches(observed, val)
     if observed['outcome'] == 'raise':
+        if kind == 'post' and val.may_raise:
+            return exc_matches(observed, val.may_raise)
         return False
     try:
-        got = values.decode(observed['value'])
+        got = desc_to_sym(observed['value'])
     except Exception:
         return None
-    got = to_sym_world(got)
     if kind == 'post':
+        if val.post is None:
+            return True
         try:
-            r = val(ctx, got)
+            r = val.post(ctx, got)
             if isinstance(r, tuple):
                 r = r[0]
             return is_true(ctx.st, r)
@@ -132,6 +147,8 @@ def describe(exp):
         return 'raises %s' % (val.__name__ if isinstance(val, type) else '/'.join(k.__name__ for k in val))
     if kind == 'return':
         return 'returns %r' % (val,)
+    if kind == 'post':
+        return 'satisfies clause %r%s' % (val.name, ' or raises ' + '/'.join(k.__name__ for k in val.may_raise) if val.may_raise else '')
     return kind
 
 
